@@ -48,7 +48,7 @@ EST = {
 QUICK = ('TRIAD.rotmat', 'ecompass.NED', 'ecompass.ENU', 'am2DCM.ENU', 'am2DCM.NED')
 
 
-@contract('C04', 'recovers', variants=[dict(e=k) for k in EST if k in QUICK], optional=True, feas_timeout_ms=1500, budget_s=600, max_paths=300,
+@contract('C04', 'recovers', variants=[dict(e=k) for k in EST if k in QUICK], optional=True, feas_timeout_ms=1500, budget_s=400, max_paths=300, timeout_ms=25000,
           functions=sorted(EST))
 def c_recovers(c):
     g_ref, m_fn, run, direction = EST[c.p['e']]
